@@ -24,9 +24,16 @@ impl Probe {
 }
 pub trait ErrCode { fn code(&self) -> u8; }
 impl ErrCode for u8 { fn code(&self) -> u8 { *self } }
+impl ErrCode for () { fn code(&self) -> u8 { 0 } }
 impl ErrCode for std::convert::Infallible { fn code(&self) -> u8 { 0 } }
-impl<E: ErrCode> crate::observer::Observer<u8, E> for Probe {
-  fn next(&mut self, v: u8) { self.push(Ev::Next(v)) }
+// items are logged through a one-byte code (identity for u8, 0/1 for bool, low byte for usize)
+pub trait ItemCode { fn code(&self) -> u8; }
+impl ItemCode for u8 { fn code(&self) -> u8 { *self } }
+impl ItemCode for bool { fn code(&self) -> u8 { *self as u8 } }
+impl ItemCode for usize { fn code(&self) -> u8 { *self as u8 } }
+impl ItemCode for () { fn code(&self) -> u8 { 0 } }
+impl<I: ItemCode, E: ErrCode> crate::observer::Observer<I, E> for Probe {
+  fn next(&mut self, v: I) { self.push(Ev::Next(v.code())) }
   fn error(self, e: E) { self.push(Ev::Error(e.code())) }
   fn complete(self) { self.push(Ev::Complete) }
   fn is_finished(&self) -> bool { self.finished || self.log.borrow().n >= self.finish_after }
